@@ -113,6 +113,18 @@ def flags(repo):
         raise ValueError(f"aggregate element loops disagree about skipping token separators: {vals}")
     out["aggrSkipsComments"] = vals[0]
 
+    # ---- SkipInstance
+    rf0 = rd("src/clstepcore/read_func.cc")
+    sk = _strip(_body(rf0, r"Severity\s+SkipInstance\(\s*istream\s*&\s*in", "SkipInstance"))
+    if not re.search(r"case\s+';'\s*:\s*return\s+SEVERITY_NULL", sk) or not re.search(r"case\s+'\\''\s*:\s*in\.putback\(\s*c\s*\)\s*;\s*tmp\.STEPread", sk):
+        raise ValueError("SkipInstance: shape changed")
+    if re.search(r"case\s+'/'\s*:", sk):
+        if not re.search(r"case\s+'/'\s*:\s*if\(\s*in\.peek\(\)\s*==\s*'\*'\s*\)\s*\{[^{}]*in\.putback\(\s*c\s*\)\s*;\s*ReadComment\(\s*in\s*,", sk):
+            raise ValueError("SkipInstance: unknown handling of '/'")
+        out["skipInstanceSkipsComments"] = True
+    else:
+        out["skipInstanceSkipsComments"] = False
+
     # ---- recovery scan
     rb = _strip(_body(ai, r"Severity\s+SDAI_Application_instance::STEPread\(\s*int\s+id", "SDAI_Application_instance::STEPread"))
     m = re.search(r"if\(\s*c\s*==\s*';'\s*\)\s*\{(.*?)\}", rb, re.S)
@@ -230,7 +242,8 @@ def rwCfg : StepModel.P21.RWCfg :=
   {{ stringNodeAppends := {_b(f['stringNodeAppends'])}, criSkipsComments := {_b(f['criSkipsComments'])},
     aggrSkipsComments := {_b(f['aggrSkipsComments'])}, complexMergesParts := {_b(f['complexMergesParts'])},
     complexPartStrict := {f['complexPartStrict']}, recoveryKeepsSemicolon := {_b(f['recoveryKeepsSemicolon'])},
-    complexReportsError := {_b(f['complexReportsError'])} }}
+    complexReportsError := {_b(f['complexReportsError'])},
+    skipInstanceSkipsComments := {_b(f['skipInstanceSkipsComments'])} }}
 
 /-- the literal-level switches, re-derived by this extractor (C09's `Generated.lexCfg` is the primary tie for them) -/
 def rwLexCfg : StepModel.P21.LexCfg :=
